@@ -1,6 +1,6 @@
 (** C14 — the trace theorem.  The interpreter's control flow depends on a fire function only
     through which firings raise ([exec_strip]); under the property's injection alphabet a fire
-    function is one of 81 tables ([quiet_table]); the sweep over all tables, all admissible
+    function is, at the firing sites of the program, one of 81 tables ([quiet_table]); the sweep over all tables, all admissible
     scenarios and both drivers is decided by computation on the GENERATED pipeline. *)
 From Coq Require Import ZArith List Bool Lia.
 From SpyneV Require Import C14.Model C14.Spec C14.Drivers C14.Sweep C14.OSetProofs.
@@ -10,48 +10,69 @@ Open Scope Z_scope.
 Definition strip (i : fitem) : fitem :=
   match i with FFire t e d _ r => FFire t e d [] r | FFunc => FFunc end.
 
+Definition sim (x y : list fitem * st * signal) : Prop :=
+  map strip (fst (fst x)) = map strip (fst (fst y)) /\ snd (fst x) = snd (fst y) /\ snd x = snd y.
+
 Section Strip.
   Variables f g : target -> ev -> bool -> list lid * option exk.
   Variable sc : scen.
-  Hypothesis same : forall t e d, snd (f t e d) = snd (g t e d).
 
-  Definition sim (x y : list fitem * st * signal) : Prop :=
-    map strip (fst (fst x)) = map strip (fst (fst y)) /\ snd (fst x) = snd (fst y) /\ snd x = snd y.
-
-  Lemma do_fire_sim : forall t e s, sim (do_fire f t e s) (do_fire g t e s).
+  Lemma do_fire_sim : forall t e s, (forall d, snd (f t e d) = snd (g t e d)) ->
+    sim (do_fire f t e s) (do_fire g t e s).
   Proof.
-    intros t e s; unfold do_fire, sim.
-    specialize (same t e (negb (is_none (s_desc s)))).
+    intros t e s same; unfold do_fire, sim.
+    specialize (same (negb (is_none (s_desc s)))).
     destruct (f t e _) as [c1 r1], (g t e _) as [c2 r2]; simpl in *; subst; auto.
   Qed.
 
-  Lemma exec_strip : forall p s cur, sim (exec f sc p s cur) (exec g sc p s cur).
+  (** the two runs agree as soon as the fire functions raise alike at the sites of the program *)
+  Lemma exec_strip : forall p,
+    (forall t e d, In (t, e) (sites p) -> snd (f t e d) = snd (g t e d)) ->
+    forall s cur, sim (exec f sc p s cur) (exec g sc p s cur).
   Proof.
-    induction p; intros s cur; simpl; try (unfold sim; simpl; auto; fail).
+    induction p; intros same s cur; simpl; try (unfold sim; simpl; auto; fail).
     - (* Seq *)
-      specialize (IHp1 s cur).
+      assert (S1 : forall t e d, In (t, e) (sites p1) -> snd (f t e d) = snd (g t e d))
+        by (intros; apply same; simpl; apply in_or_app; auto).
+      assert (S2 : forall t e d, In (t, e) (sites p2) -> snd (f t e d) = snd (g t e d))
+        by (intros; apply same; simpl; apply in_or_app; auto).
+      specialize (IHp1 S1 s cur).
       destruct (exec f sc p1 s cur) as [[t1 s1] g1], (exec g sc p1 s cur) as [[t2 s2] g2].
       destruct IHp1 as (Ht & Hs & Hg); simpl in *; subst.
       destruct g2; try (unfold sim; simpl; auto; fail).
-      specialize (IHp2 s2 cur).
+      specialize (IHp2 S2 s2 cur).
       destruct (exec f sc p2 s2 cur) as [[t1' s1'] g1'], (exec g sc p2 s2 cur) as [[t2' s2'] g2'].
       destruct IHp2 as (Ht' & Hs' & Hg'); simpl in *; subst.
       unfold sim; simpl; rewrite !map_app; repeat split; congruence.
-    - apply do_fire_sim.
-    - apply do_fire_sim.
-    - (* If *) destruct (eval sc c s); auto.
+    - apply do_fire_sim; intro d; apply same; simpl; auto.
+    - apply do_fire_sim; intro d; apply same; simpl; auto.
+    - (* If *)
+      assert (S1 : forall t e d, In (t, e) (sites p1) -> snd (f t e d) = snd (g t e d))
+        by (intros; apply same; simpl; apply in_or_app; auto).
+      assert (S2 : forall t e d, In (t, e) (sites p2) -> snd (f t e d) = snd (g t e d))
+        by (intros; apply same; simpl; apply in_or_app; auto).
+      destruct (eval sc c s); auto.
     - (* Try *)
-      specialize (IHp1 s cur).
+      assert (S1 : forall t e d, In (t, e) (sites p1) -> snd (f t e d) = snd (g t e d))
+        by (intros; apply same; simpl; apply in_or_app; auto).
+      assert (S2 : forall t e d, In (t, e) (sites p2) -> snd (f t e d) = snd (g t e d))
+        by (intros; apply same; simpl; apply in_or_app; auto).
+      specialize (IHp1 S1 s cur).
       destruct (exec f sc p1 s cur) as [[t1 s1] g1], (exec g sc p1 s cur) as [[t2 s2] g2].
       destruct IHp1 as (Ht & Hs & Hg); simpl in *; subst.
       destruct g2; try (unfold sim; simpl; auto; fail).
-      specialize (IHp2 s2 (Some k)).
+      specialize (IHp2 S2 s2 (Some k)).
       destruct (exec f sc p2 s2 (Some k)) as [[t1' s1'] g1'], (exec g sc p2 s2 (Some k)) as [[t2' s2'] g2'].
       destruct IHp2 as (Ht' & Hs' & Hg'); simpl in *; subst.
       unfold sim; simpl; rewrite !map_app; repeat split; congruence.
-    - (* IfExc *) destruct cur as [k|]; [destruct (isinst k c)|]; auto.
+    - (* IfExc *)
+      assert (S1 : forall t e d, In (t, e) (sites p1) -> snd (f t e d) = snd (g t e d))
+        by (intros; apply same; simpl; apply in_or_app; auto).
+      assert (S2 : forall t e d, In (t, e) (sites p2) -> snd (f t e d) = snd (g t e d))
+        by (intros; apply same; simpl; apply in_or_app; auto).
+      destruct cur as [k|]; [destruct (isinst k c)|]; auto.
     - (* Call *)
-      specialize (IHp s None).
+      specialize (IHp same s None).
       destruct (exec f sc p s None) as [[t1 s1] g1], (exec g sc p s None) as [[t2 s2] g2].
       destruct IHp as (Ht & Hs & Hg); simpl in *; subst. unfold sim; simpl; auto.
   Qed.
@@ -74,32 +95,37 @@ Proof.
 Qed.
 
 Lemma run_strip : forall f g sc drv p,
-  (forall t e d, snd (f t e d) = snd (g t e d)) ->
+  (forall t e d, In (t, e) (sites p) -> snd (f t e d) = snd (g t e d)) ->
   verdict drv sc (run f sc p) = verdict drv sc (run g sc p).
 Proof.
   intros f g sc drv p H. unfold run.
-  pose proof (exec_strip f g sc H p st0 None) as S.
+  pose proof (exec_strip f g sc p H st0 None) as S.
   destruct (exec f sc p st0 None) as [[t1 s1] g1], (exec g sc p st0 None) as [[t2 s2] g2].
   destruct S as (Ht & Hs & Hg); simpl in *; subst. apply verdict_strip; assumption.
 Qed.
 
-(** under [quiet], a fire function raises exactly as one of the tables does *)
-Lemma quiet_table : forall fire, quiet fire ->
-  forall t e d, snd (fire t e d) =
+(** under [quiet], at the sites of a program that only raises through ctx.fire_event, a fire
+    function raises exactly as one of the tables does *)
+Lemma quiet_table : forall fire p, quiet fire -> sites_ok p = true ->
+  forall t e d, In (t, e) (sites p) -> snd (fire t e d) =
     snd (tabfire (snd (fire TCtx Ecall true)) (snd (fire TCtx Ecall false))
                  (snd (fire TCtx Eret_obj true)) (snd (fire TCtx Eret_obj false)) t e d).
 Proof.
-  intros fire Hq t e d.
+  intros fire p Hq Hs t e d Hin.
+  unfold sites_ok in Hs. rewrite forallb_forall in Hs. specialize (Hs _ Hin). simpl in Hs.
   pose proof (Hq t e d) as Q.
-  destruct t, e, d; simpl; try reflexivity;
+  destruct t, e, d; simpl in *; try reflexivity; try discriminate Hs;
     (destruct (snd (fire _ _ _)) as [k|]; [|reflexivity]);
-    destruct Q as (Ht & [He|He] & _); discriminate.
+    destruct (Q k eq_refl) as ([He|He] & _); discriminate.
 Qed.
 Lemma quiet_raise : forall fire, quiet fire -> forall t e d, In (snd (fire t e d)) all_raise.
 Proof.
   intros fire Hq t e d. specialize (Hq t e d). destruct (snd (fire t e d)) as [k|]; simpl; auto.
-  destruct Hq as (_ & _ & [->| ->]); auto.
+  destruct (Hq k eq_refl) as (_ & [->| ->]); auto.
 Qed.
+
+Lemma drivers_sites_ok : forall drv, sites_ok (driver_prog drv) = true.
+Proof. intros []; vm_compute; reflexivity. Qed.
 
 Lemma sweep_true : sweepF chk = true.
 Proof. vm_cast_no_check (eq_refl true). Qed.
@@ -162,14 +188,57 @@ Qed.
 (** TRACE THEOREM: for both drivers, every admissible scenario and every fire function in
     which only method_call / method_return_object listeners raise, the call returns (nothing
     escapes), no unmodelled code is reached, and the trace satisfies the specification *)
-Theorem trace_ok : forall drv sc fire,
+Theorem trace_ok_fire : forall drv sc fire,
   scen_adm (is_wsgi drv) sc = true -> quiet fire ->
   verdict drv sc (run fire sc (driver_prog drv)) = true.
 Proof.
   intros drv sc fire Hadm Hq.
-  rewrite (run_strip fire _ sc drv (driver_prog drv) (quiet_table fire Hq)).
+  rewrite (run_strip fire _ sc drv (driver_prog drv)
+             (quiet_table fire _ Hq (drivers_sites_ok drv))).
   pose proof (sweep_sound drv sc _ _ _ _ Hadm
                 (quiet_raise fire Hq TCtx Ecall true) (quiet_raise fire Hq TCtx Ecall false)
                 (quiet_raise fire Hq TCtx Eret_obj true) (quiet_raise fire Hq TCtx Eret_obj false)) as C.
   unfold check_one in C. rewrite Hadm in C. exact C.
 Qed.
+
+(* ------------------------------------------------------------------ from listener behaviours *)
+Lemma call_all_raises : forall b e hs cs k, call_all b e hs = (cs, Some k) -> exists h, In h hs /\ b h e = Some k.
+Proof.
+  induction hs as [|h r IH]; intros cs k H; simpl in H; [discriminate|].
+  destruct (b h e) as [k'|] eqn:E.
+  - inversion H; subst. exists h; simpl; auto.
+  - destruct (call_all b e r) as [t x] eqn:F. inversion H; subst.
+    destruct (IH _ _ eq_refl) as (h' & Hin & Hb). exists h'; simpl; auto.
+Qed.
+Lemma fire_mgrs_raises : forall b e ms cs k, fire_mgrs b ms e = (cs, Some k) -> exists h, b h e = Some k.
+Proof.
+  intros b e ms cs k H. rewrite fire_mgrs_concat in H.
+  destruct (call_all_raises _ _ _ _ _ H) as (h & _ & Hb). eauto.
+Qed.
+Lemma fire_world_raises : forall parts w dms b t e d k,
+  snd (fire_world parts w dms b t e d) = Some k -> exists h, b h e = Some k.
+Proof.
+  intros parts w dms b t e d k H.
+  destruct t; simpl in H.
+  - destruct (fire_mgrs b _ e) as [cs x] eqn:F; simpl in H; subst. eapply fire_mgrs_raises; eauto.
+  - unfold em_fire in H. destruct (call_all b e _) as [cs x] eqn:F; simpl in H; subst.
+    destruct (call_all_raises _ _ _ _ _ F) as (h & _ & Hb); eauto.
+  - unfold em_fire in H. destruct (call_all b e _) as [cs x] eqn:F; simpl in H; subst.
+    destruct (call_all_raises _ _ _ _ _ F) as (h & _ & Hb); eauto.
+  - unfold em_fire in H. destruct (call_all b e _) as [cs x] eqn:F; simpl in H; subst.
+    destruct (call_all_raises _ _ _ _ _ F) as (h & _ & Hb); eauto.
+  - unfold em_fire in H. destruct (call_all b e _) as [cs x] eqn:F; simpl in H; subst.
+    destruct (call_all_raises _ _ _ _ _ F) as (h & _ & Hb); eauto.
+Qed.
+Lemma quiet_world : forall parts w dms b, quiet_beh b -> quiet (fire_world parts w dms b).
+Proof.
+  intros parts w dms b Hb t e d k H. destruct (fire_world_raises _ _ _ _ _ _ _ _ H) as (h & Hh).
+  exact (Hb _ _ _ Hh).
+Qed.
+
+(** the same for every set of managers, however they were filled, every method descriptor
+    and every behaviour of the listeners in the property's alphabet *)
+Theorem trace_ok : forall drv sc parts w dms b,
+  scen_adm (is_wsgi drv) sc = true -> quiet_beh b ->
+  verdict drv sc (run (fire_world parts w dms b) sc (driver_prog drv)) = true.
+Proof. intros; apply trace_ok_fire; [assumption | apply quiet_world; assumption]. Qed.
